@@ -5,9 +5,13 @@ import (
 	"strings"
 
 	"github.com/openziti/storage/ast"
+	"github.com/openziti/storage/boltz"
+	"go.etcd.io/bbolt"
+	"os"
 	"verif/harness/internal/core"
 	"verif/harness/internal/memsym"
 	"verif/harness/internal/ql"
+	"verif/harness/internal/schema"
 )
 
 // A skeleton is a flat chain of operands joined by and / or; an operand is an atom, a parenthesised
@@ -283,8 +287,8 @@ func init() {
 		ID:    "C12",
 		Level: "exploration",
 		Rule: "all boolean skeletons with up to 3 (quick) / 4 (thorough) distinct atoms, plus seeded random skeletons with up to 5 / 6 atoms: every and/or chain, every placement of parentheses (incl. redundant ones) and of `not (...)`, nesting depth 2; each is rendered (canonical spelling and 3 re-spellings with random keyword case, " +
-			"whitespace at WS positions only, redundant parentheses), parsed, and its full truth table over all 2^N assignments (atoms are bool symbols; in a second pass typed comparisons; in a third pass a rotation of 13 operation kinds: in / between / not in / not between / contains / null test / isEmpty / count and anyOf / allOf over sets whose elements lie partly inside and partly outside the list or range; in a fourth pass every atom is an isEmpty / count sub-query over the same linked set with its own inner predicate) is compared with the table computed from the structure with and > or. " +
-			"Then typed query templates (every operator incl. not in / not between / not contains / not icontains, set functions, lists) are re-spelled and their results over random rows must not change. non-trivial = distinct skeletons mixing and/or or containing not/parentheses",
+			"whitespace at WS positions only, redundant parentheses), parsed, and its full truth table over all 2^N assignments (atoms are bool symbols; in a second pass typed comparisons; in a third pass a rotation of 13 operation kinds: in / between / not in / not between / contains / null test / isEmpty / count and anyOf / allOf over sets whose elements lie partly inside and partly outside the list or range; in a fourth pass every atom is an isEmpty / count sub-query over the same linked set with its own inner predicate; in a fifth pass, for a third of the skeletons, every atom is a set function over ONE shared set symbol and the expression is evaluated by a bolt store over 64 entities through QueryIds and IterateIds) is compared with the table computed from the structure with and > or. " +
+			"Conjunctions composed through the API (SetPredicate + NewAndExprNode) over empty, constant, sort-only and ordinary base queries are evaluated against their truth tables. Then typed query templates (every operator incl. not in / not between / not contains / not icontains, set functions, lists) are re-spelled and their results over random rows must not change. non-trivial = distinct skeletons mixing and/or or containing not/parentheses",
 		Assumptions: []string{"bare `not` next to and/or (without parentheses) is not generated: the statement fixes only not (P)"},
 		Exhaustive:  func(core.Tier) bool { return true },
 		Plan: func(tier core.Tier, seed int64) int {
@@ -348,6 +352,12 @@ func runC12(c *core.Ctx, idx int) {
 	atomBool := func(i int) ql.Stream { return ql.Stream{ql.T(c12Sym("p", i))} }
 	atomCmp := func(i int) ql.Stream {
 		return ql.Cmp(ql.Stream{ql.T(c12Sym("n", i))}, "=", ql.Stream{ql.T("1")})
+	}
+	// bolt store for the fifth pass: one entity per assignment of up to 6 atoms, whose set field holds "v<i>" for every
+	// true atom; every atom of a skeleton is a set function over that ONE set symbol
+	bolt := newC12Bolt(c)
+	if bolt != nil {
+		defer bolt.close()
 	}
 	variant := 0
 	// fourth pass: every atom is a sub-query over the SAME linked set with its own inner predicate
@@ -436,6 +446,9 @@ func runC12(c *core.Ctx, idx int) {
 				}
 			}
 		}
+		if bolt != nil && n <= 6 && (idx >= nChunks || ski%3 == 0) {
+			bolt.check(c, sk, n, variant)
+		}
 		if sk.hasMixed() || len(sk.Operands) == 1 {
 			c.Nontrivial(sk.stream(atomBool).Canon())
 		}
@@ -446,6 +459,92 @@ func runC12(c *core.Ctx, idx int) {
 			c.Sample(map[string]any{"skeleton": sk.stream(atomBool).Canon(), "respelled": sk.stream(atomCmp).Respell(r), "assignments": 1 << n})
 		}
 	}
+}
+
+type c12Bolt struct {
+	db   *boltz.DbImpl
+	st   *schema.St
+	path string
+}
+
+func newC12Bolt(c *core.Ctx) *c12Bolt {
+	def := &schema.StoreDef{Type: "asg", BasePath: []string{"stores"}, Fields: []schema.Field{{Name: "ts", Kind: schema.KList}}}
+	sc := schema.Build([]*schema.StoreDef{def})
+	path := c.TempFile("c12")
+	db, err := sc.OpenDb(path)
+	if err != nil {
+		c.Violation("C12 setup", err.Error(), nil)
+		return nil
+	}
+	b := &c12Bolt{db: db, st: sc.St("asg"), path: path}
+	err = db.Update(nil, func(ctx boltz.MutateContext) error {
+		for m := 0; m < 64; m++ {
+			ts := []string{"zz"}
+			for i := 0; i < 6; i++ {
+				if m&(1<<i) != 0 {
+					ts = append(ts, "v"+string(rune('a'+i)))
+				}
+			}
+			if err := b.st.Store.Create(ctx, &schema.Ent{Id: fmt.Sprintf("m%02d", m), Typ: "asg", V: map[string]any{"ts": ts}}); err != nil {
+				return err
+			}
+		}
+		return nil
+	})
+	if err != nil {
+		c.Violation("C12 setup", err.Error(), nil)
+		b.close()
+		return nil
+	}
+	return b
+}
+
+func (b *c12Bolt) close() { _ = b.db.Close(); _ = os.Remove(b.path) }
+
+// check evaluates the skeleton through the bolt store (QueryIds and IterateIds) with every atom spelled as a set
+// function over the shared set symbol, and compares the id set with the skeleton's truth table.
+func (b *c12Bolt) check(c *core.Ctx, sk *skel, n, variant int) {
+	atom := func(i int) ql.Stream {
+		v := ql.Stream{ql.T(ql.Lit("v" + string(rune('a'+i))))}
+		set := ql.Func("anyOf", ql.Stream{ql.T("ts")})
+		switch (i + variant) % 3 {
+		case 0:
+			return ql.Cmp(set, "=", v) // seek shortcut
+		case 1:
+			return ql.WordOp(set, "in", ql.List([]ql.Stream{v}))
+		}
+		return ql.Paren(ql.Not(ql.Cmp(ql.Func("allOf", ql.Stream{ql.T("ts")}), "!=", v))) // parenthesised: a bare leading not would take the rest of the chain
+	}
+	text := sk.stream(atom).Canon()
+	var want []string
+	for m := 0; m < 64; m++ {
+		asg := make([]bool, n)
+		for i := 0; i < n; i++ {
+			asg[i] = m&(1<<i) != 0
+		}
+		if sk.eval(asg) {
+			want = append(want, fmt.Sprintf("m%02d", m))
+		}
+	}
+	_ = b.db.View(func(tx *bbolt.Tx) error {
+		ids, _, err := b.st.Store.QueryIds(tx, text+" limit none")
+		c.Eval()
+		c.Count("bolt_truth_tables", 1)
+		if err != nil {
+			c.Violationf("C12 well-formed boolean expression rejected", map[string]any{"query": text}, "%q: %v", text, err)
+			return nil
+		}
+		if fmt.Sprint(ids) != fmt.Sprint(want) {
+			c.Violationf("C12 truth table differs from and-before-or grouping (bolt store, atoms over one shared set symbol)", map[string]any{"query": text}, "query %q: %d ids, expected %d; got %v want %v", text, len(ids), len(want), ids, want)
+			return nil
+		}
+		if parsed, err := ast.Parse(b.st.Store, text); err == nil {
+			if got := idsOf(b.st.Store.IterateIds(tx, parsed)); fmt.Sprint(got) != fmt.Sprint(want) {
+				c.Violationf("C12 truth table differs from and-before-or grouping (bolt store IterateIds, atoms over one shared set symbol)", map[string]any{"query": text}, "query %q: got %v want %v", text, got, want)
+			}
+		}
+		return nil
+	})
 }
 
 // atoms of the third pass: every operation family, with quantified set operands whose elements are partly inside and
@@ -546,8 +645,54 @@ func countAtoms(s *skel) int {
 	return n
 }
 
+// c12Compose: connectives applied to already parsed queries through the API (SetPredicate with NewAndExprNode): the
+// composed query is the conjunction of what was written, whatever the base query was (empty, constant, sort-only ...).
+func c12Compose(c *core.Ctx, tbl *memsym.Table) {
+	bases := []struct {
+		text string
+		val  func(pa bool) bool
+	}{{"", func(bool) bool { return true }}, {"true", func(bool) bool { return true }}, {"not false", func(bool) bool { return true }}, {"(true)", func(bool) bool { return true }},
+		{"sort by na", func(bool) bool { return true }}, {"limit 5", func(bool) bool { return true }}, {"skip 1 limit 2", func(bool) bool { return true }}, {"false", func(bool) bool { return false }},
+		{"pa", func(pa bool) bool { return pa }}, {"pa = true sort by na desc", func(pa bool) bool { return pa }}, {"not (pa)", func(pa bool) bool { return !pa }}}
+	extras := []struct {
+		text string
+		val  func(na int64) bool
+	}{{"na = 1", func(n int64) bool { return n == 1 }}, {"na != 1", func(n int64) bool { return n != 1 }}, {"na in [0, 2]", func(n int64) bool { return n == 0 || n == 2 }}, {"not (na = 0)", func(n int64) bool { return n != 0 }}, {"na = 1 or na = 2", func(n int64) bool { return n == 1 || n == 2 }}}
+	for _, b := range bases {
+		for _, x := range extras {
+			for order := 0; order < 2; order++ {
+				q, err1 := ast.Parse(tbl, b.text)
+				xq, err2 := ast.Parse(tbl, x.text)
+				c.Eval()
+				if err1 != nil || err2 != nil {
+					c.Violationf("C12 well-formed boolean expression rejected", map[string]any{"base": b.text, "extra": x.text}, "%v %v", err1, err2)
+					continue
+				}
+				left, right := q.GetPredicate(), xq.GetPredicate()
+				if order == 1 {
+					left, right = right, left
+				}
+				q.SetPredicate(ast.NewAndExprNode(left, right))
+				for _, pa := range []bool{false, true} {
+					for na := int64(0); na < 3; na++ {
+						row := memsym.NewRow(tbl)
+						row.Vals["pa"], row.Vals["na"] = pa, na
+						want := b.val(pa) && x.val(na)
+						if got := q.EvalBool(row); got != want {
+							c.Violationf("C12 conjunction composed through SetPredicate evaluates wrongly", map[string]any{"base": b.text, "extra": x.text, "order": order},
+								"base %q and extra %q (order %d) on pa=%v na=%d: got %v want %v", b.text, x.text, order, pa, na, got, want)
+						}
+					}
+				}
+				c.Count("composed_queries", 1)
+			}
+		}
+	}
+}
+
 // c12Respell: typed query templates re-spelled; results over random rows must be identical.
 func c12Respell(c *core.Ctx, r *core.Rand, tbl *memsym.Table) {
+	c12Compose(c, tbl)
 	sym := func(s string) ql.Stream { return ql.Stream{ql.T(s)} }
 	num := func(s string) ql.Stream { return ql.Stream{ql.T(s)} }
 	str := func(s string) ql.Stream { return ql.Stream{ql.T(ql.Lit(s))} }
